@@ -32,7 +32,8 @@ DECL_GARBAGE = ['(x) y', '[a]', '{a:b}', '1px', '#hash', '"str"', ': x', '!impor
                 '(a;b) c: d', '[x;y]', '{ a: b; c: d } e', '"a;b"', "'}'", 'x: f(;)', '-', '-- x', 'color: red;;;', '& b: c',
                 'co lor: red', 'color: rgb(1,2', 'top: (1', 'u+0-7f: x', '12: 3', '$a: b', 'color: #', 'color: url(', '<!-- x: y -->']
 STMT_GARBAGE = ['a,,b {top:0}', '1a {top:0}', 'a:::b {top:0}', ' {top:0}', 'a[[b]] {top:0}', 'a( {top:0}', '@foo bar;',
-                '@foo { a { b: c } }', '@charset "utf-8";', '@import "late.css";', '@namespace q "http://q";',
+                '@foo { a { b: c } }', '@charset "utf-8";', '@import "late.css";', '@namespace q "http://q";', '@namespace p "http://other.example/p";',
+                '@namespace "http://other.example/default";', '@namespace svg "http://p.example/ns";',
                 '@top-left { content: "x" }', 'a;b {top:0}', '"str" {top:0}', '{}', '{ x: y }', '(a) {top:0}', '[b] {top:0}',
                 'a { b: c } }', '& {top:0}', 'a > {top:0}', 'a, {top:0}', ', a {top:0}', '@media {a{top:0}}',
                 '@media print and {a{top:0}}', '@page :nope: {margin:0}', '@import;', '@x;', 'a.{top:0}', '#{top:0}', 'a::{top:0}']
@@ -134,8 +135,8 @@ def check_inject_decl(case, ctx):
     finally:
         del items[i]
     with lib('project'):
-        po = P.p_sheet(parse(orig_text))
-        pd = P.p_sheet(parse(dam_text))
+        po = P.p_sheet(parse(orig_text), resolved=True)
+        pd = P.p_sheet(parse(dam_text), resolved=True)
     node_o, node_d = get_stmt_proj(po, path), get_stmt_proj(pd, path)
     if node_o is None:
         raise Violation('harness:path', f'{path} in {po!r}')
@@ -185,8 +186,13 @@ def check_inject_stmt(case, ctx):
     lo = header_len(stmts) if not path else 0
     i = min(lo + case['pos'], len(stmts))
     g = case['garbage']
-    if g.startswith('@namespace') and m['nslevel']:
-        pass
+    if not path and g.startswith(('@namespace', '@import', '@charset')):
+        # "misplaced" means: after the first statement that closes the header section
+        first_body = next((j for j in range(lo, len(stmts)) if stmts[j]['k'] in ('style', 'media', 'page', 'fontface')), None)
+        if first_body is None:
+            ctx.event('skipped:no-body-statement')
+            return
+        i = max(i, first_body + 1)
     orig_text = A.render_sheet(m, case['seed'])
     stmts.insert(i, {'k': 'raw', 'text': g})
     try:
@@ -194,8 +200,8 @@ def check_inject_stmt(case, ctx):
     finally:
         del stmts[i]
     with lib('project'):
-        po = P.p_sheet(parse(orig_text))
-        pd = P.p_sheet(parse(dam_text))
+        po = P.p_sheet(parse(orig_text), resolved=True)
+        pd = P.p_sheet(parse(dam_text), resolved=True)
     if path:
         node_o, node_d = get_stmt_proj(po, path), get_stmt_proj(pd, path)
         if node_d is None or node_d[0] != 'media':
@@ -301,8 +307,8 @@ def check_trunc_decl(case, ctx):
 
 
 SUBS = [
-    Sub('inject_decl', check_inject_decl, strategy=inject_decl_strategy, quick=4000, thorough=200000, shards_quick=8, budget_quick=120),
-    Sub('inject_stmt', check_inject_stmt, strategy=inject_stmt_strategy, quick=4000, thorough=200000, shards_quick=8, budget_quick=120),
-    Sub('trunc_stmt', check_trunc_stmt, strategy=trunc_stmt_strategy, quick=150, thorough=6000, shards_quick=8, budget_quick=150),
-    Sub('trunc_decl', check_trunc_decl, strategy=trunc_decl_strategy, quick=250, thorough=10000, shards_quick=8, budget_quick=150),
+    Sub('inject_decl', check_inject_decl, strategy=inject_decl_strategy, quick=2500, thorough=200000, shards_quick=8, budget_quick=60),
+    Sub('inject_stmt', check_inject_stmt, strategy=inject_stmt_strategy, quick=2500, thorough=200000, shards_quick=8, budget_quick=60),
+    Sub('trunc_stmt', check_trunc_stmt, strategy=trunc_stmt_strategy, quick=80, thorough=6000, shards_quick=8, budget_quick=60),
+    Sub('trunc_decl', check_trunc_decl, strategy=trunc_decl_strategy, quick=150, thorough=10000, shards_quick=8, budget_quick=60),
 ]
